@@ -299,8 +299,13 @@ class Headers(Mapping):
 
     def __setitem__(self, name: str, value: str):
         """Delete item if exist and set it's new value."""
+        old = self.__headers
         del self[name]
-        self.add_header(name, value)
+        try:
+            self.add_header(name, value)
+        except Exception:
+            self.__headers = old    # a refused value must not delete
+            raise
 
     def __iter__(self):
         return iter(self.__headers)
